@@ -393,14 +393,14 @@ class HasherModel:
             if o.startswith("t_"):
                 e["count"] = len(self.buf)
             return "ok", e
-        if o in ("finalize_xof", "t_xof", "t_xof_reset"):
+        if o in ("finalize_xof", "t_xof", "t_xof_reset", "t_xof_into", "t_xof_reset_into"):
             if self.off != 0:
                 return "panic", "finalize_xof after set_input_offset(nonzero)"
             sk = op.get("seek", 0)
             e = {"hex": spec_out(self.sc, self.buf, op["n"], sk).hex()}
             if o == "finalize_xof":
                 e["pos"] = sk + op["n"]
-            if o == "t_xof_reset":
+            if o in ("t_xof_reset", "t_xof_reset_into"):
                 self.buf = b""
             if o.startswith("t_"):
                 e["count"] = len(self.buf)
@@ -484,6 +484,14 @@ def check_xof(sc, low, res):
             if o == "read":
                 e["n"] = n
             pos += n
+        elif o == "seek_relative":
+            t = pos + op["v"]
+            if t < 0:
+                e["err"] = "InvalidInput"
+            else:
+                e["err"] = None
+                pos = min(t, U64)
+            e["pos"] = pos
         elif o == "seek":
             kind, v = op["kind"], op["v"]
             t = v if kind == "start" else pos + v if kind == "current" else None
@@ -887,6 +895,11 @@ def fam_xof(rng):
         add(100, [{"op": "seek", "kind": "current", "v": v}, {"op": "fill", "n": 66},
                   {"op": "seek", "kind": "current", "v": -v}, {"op": "fill", "n": 66},
                   {"op": "seek", "kind": "current", "v": -66 - 66}, {"op": "fill", "n": 5}])
+    add(33, [{"op": "fill", "n": 100}, {"op": "seek_relative", "v": -101}, {"op": "stream_position"}, {"op": "fill", "n": 3},
+             {"op": "seek_relative", "v": -103}, {"op": "seek_relative", "v": 25}, {"op": "fill", "n": 70},
+             {"op": "seek_relative", "v": -(1 << 63)}, {"op": "seek_relative", "v": (1 << 63) - 1},
+             {"op": "seek_relative", "v": (1 << 63) - 1}, {"op": "seek_relative", "v": 1000}, {"op": "stream_position"},
+             {"op": "seek_relative", "v": -64}, {"op": "fill", "n": 10}])
     add(64, [{"op": "read", "n": 0}, {"op": "fill", "n": 0}, {"op": "read", "n": 7}, {"op": "clone"},
              {"op": "read", "n": 64}, {"op": "clone"}, {"op": "fill", "n": 1}])
     for n in (1025, 2049, 5000):
@@ -1124,6 +1137,19 @@ def fam_traits(rng):
                             {"op": "finalize"}]})
         out.append({"kind": "xof", "mode": "hash", "input": _inp(n),
                     "ops": [{"op": "xofread", "n": k} for k in (1, 63, 64, 65, 301)]})
+        # provided methods of the digest traits, every output length around the hash length, then reuse
+        for m in MODES:
+            ops2 = []
+            for k in (0, 1, 16, 31, 32, 33, 64, 65, 200):
+                ops2 += [{"op": "update", "a": 0, "b": min(n, 3 + k), "via": "digest"}, {"op": "t_xof_into", "n": k},
+                         {"op": "t_xof_reset_into", "n": k}, {"op": "count"},
+                         {"op": "update", "a": 0, "b": a, "via": "digest"}, {"op": "t_xof_reset_into", "n": 32}, {"op": "count"}]
+            out.append(_with({"kind": "traits", "input": _inp(n), "ops": ops2 + [{"op": "finalize"}]}, m))
+        # trait reads of every small size at block boundaries
+        for k in (8, 16, 32, 48, 64):
+            out.append({"kind": "xof", "mode": "keyed", "key_hex": KEY_TV, "input": _inp(n),
+                        "ops": [{"op": "xofread", "n": k} for _ in range(max(4, 256 // k))] +
+                               [{"op": "set", "v": 192}, {"op": "xofread", "n": 20}, {"op": "xofread", "n": 0}, {"op": "xofread", "n": 44}]})
     return out
 
 
@@ -1171,6 +1197,12 @@ def fam_debug(rng):
         ({"mode": "derive", "context": "verif context one"}, {"mode": "derive", "context": "another context 2"}),
         ({"mode": "derive_from_context_key", "key_hex": k1}, {"mode": "derive_from_context_key", "key_hex": k2}),
     ]
+    # special key values a predicate on the key could single out: the IV (either byte order), all zero, all ones
+    iv_le = b3spec._cv_bytes(b3spec.IV).hex()
+    iv_be = b"".join(w.to_bytes(4, "big") for w in b3spec.IV).hex()
+    for special in (iv_le, iv_be, "00" * 32, "ff" * 32):
+        pairs.append(({"mode": "keyed", "key_hex": special}, {"mode": "keyed", "key_hex": k2}))
+        pairs.append(({"mode": "derive_from_context_key", "key_hex": special}, {"mode": "derive_from_context_key", "key_hex": k2}))
     for n, ups in ((0, []), (1, [1]), (64, [64]), (65, [64, 1]), (1024, [1024]), (1025, [1000, 25]), (5000, [2048, 2952]),
                    (70000, [70000])):
         for a, b in pairs:
